@@ -43,6 +43,18 @@ def run(ctx):
         "clients run in one process as separate Butler instances with separate connections; the schedule is imposed by callbacks, not by threads",
     ]
     with core.Lock():
+        # T-tie: the decision Database.sync takes after its INSERT .. ON CONFLICT IGNORE and the query for the row (get-or-create,
+        # conflict, update) is translated from the working tree into Gen/SyncPy.lean; C20.Translated.get_or_create /
+        # conflict_never_silent / sync_table are proved about the translation
+        import sys as _sys
+
+        _sys.path.insert(0, os.path.join(core.VERIF, "translate"))
+        try:
+            import gen_sync
+
+            gen_sync.generate(core.GEN_DIR)
+        except Exception as e:
+            ctx.broken.append(f"translation: Database.sync (decision): {type(e).__name__}: {e}")
         built = core.lean_build(ctx, LEAN_TARGETS)
         if built:
             core.lean_audit(ctx, ["ButlerModel.Props.C20"])
